@@ -5,6 +5,7 @@ from .graph import Graph
 from .interp import Interp, analyze_arms, implies, cmp_fact, as_poly
 from .poly import Poly
 from .types import ty_str
+from . import canon
 
 
 class Finding:
@@ -20,9 +21,9 @@ class Finding:
 
     @property
     def key(self):
-        k = "%s:%s" % (self.rule, self.func)
+        k = "%s:%s" % (self.rule, canon.canon_str(self.func))
         if self.role:
-            k += ":" + self.role
+            k += ":" + canon.canon_str(self.role)
         return k
 
     def to_json(self):
@@ -69,15 +70,24 @@ class Ctx:
         self.config = config
         self._arms = {}
         self._graphs = {}
+        self.p2c, self.c2p = canon.build(self.fx)
+        canon.register(self.p2c)
+
+    def P(self, cid):
+        """def path of a canonical function id (or of a def path), None if absent"""
+        if cid in self.fx.fns:
+            return cid
+        return self.c2p.get(cid)
 
     def fn(self, path):
-        return self.fx.fn(path)
+        p = self.P(path)
+        return self.fx.fn(p) if p else None
 
     def graph(self, path, subst=None, **kw):
         key = (path, repr(sorted((subst or {}).items(), key=lambda kv: kv[0])) if subst else "", repr(sorted(kw.items())))
         g = self._graphs.get(key)
         if g is None:
-            fn = self.fx.fn(path)
+            fn = self.fn(path)
             if fn is None:
                 return None
             g = Graph(self.fx, fn, subst or {}, **kw)
@@ -98,7 +108,7 @@ class Ctx:
         return r
 
     def span_of(self, path):
-        f = self.fx.fn(path)
+        f = self.fn(path)
         if f:
             return "%s:%d" % (f["span"]["file"], f["span"]["line"])
         return None
